@@ -44,7 +44,7 @@ INLINE_SIGMA = [b"E", b"I", b" ", b"\n", b"\r", b"\x00", b"x", b"\xff"]
 
 BOUNDS = {
     "quick": {"widths": WIDTHS, "heights": HEIGHTS, "inline_len": 3, "bufsizes": [1, 2, 3, 4, 5, 6, 7, 8], "align": "every boundary position inside 'ID <data>\\nEI\\n'", "dup_names": [2, 3, 4]},
-    "thorough": {"widths": WIDTHS + [7, 16, 17, 33], "heights": HEIGHTS + [4], "inline_len": 4, "bufsizes": [1, 2, 3, 4, 5, 6, 7, 8, 9, 16], "align": "every boundary position inside 'ID <data>\\nEI\\n'", "dup_names": [2, 3, 4, 5, 6]},
+    "thorough": {"widths": WIDTHS + [7, 16, 17, 31], "heights": HEIGHTS + [4], "inline_len": 5, "bufsizes": [1, 2, 3, 4, 5, 6, 7, 8, 9, 16], "align": "every boundary position inside 'ID <data>\\nEI\\n'", "dup_names": [2, 3, 4, 5, 6]},
 }
 
 META = {
@@ -72,7 +72,7 @@ META = {
         "PNG-predictor rows are limited to the part of apply_png_predictor that C03 judges correct (see rule); predictor defects belong to C03",
         "inline image data is followed by exactly one LF before EI (the convention of the design); data ending in CR is then indistinguishable from a CR LF separator -- see the known finding",
         "inline data longer than inline_len, filters whose encoded bytes happen to contain the end marker (skipped, counted), and images split across content streams are not explored",
-        "termination of the content parser is judged by a counted budget of 64*len+4096 fillbuf() calls per run (a livelock is reported as C18/inline-exception:Livelock...), not by time",
+        "termination of the content parser is judged by a counted budget of 8*len+1024 fillbuf() calls per run (a livelock is reported as C18/inline-exception:Livelock...), not by time",
         "the interpreter's glyph rendering itself is judged by C05; here glyphs after an inline image are only compared with the same program without the image",
     ],
 }
@@ -424,7 +424,7 @@ PDFContentParser.fillbuf = _counting_fillbuf  # type: ignore[method-assign]
 
 
 def set_budget(content_len: int) -> None:
-    _BUDGET[0] = 64 * content_len + 4096
+    _BUDGET[0] = 8 * content_len + 1024
 
 
 # ---- inline images: fast path on a live page object
